@@ -49,8 +49,12 @@ class Waiter:
         self.run.on_callback(self, rm, req)
 
 
+C09_OWNED = {'pool_usage_ne_holdings', 'reserve_vs_fit', 'over_capacity', 'crash'}
+
+
 class Run:
-    def __init__(self, sh, case):
+    def __init__(self, sh, case, owner='C10'):
+        self.owner = owner
         from simprocesd.model import Environment, ResourceManager
         instrument.install()
         self.sh = sh
@@ -71,11 +75,47 @@ class Run:
         self.scan_pos = 0        # index in self.waiting after the last served waiter of this pass
         self.multi_pass = 0
         self.infeasible_mid = 0
+        self.reduced_below = set()
 
     def fail(self, name, msg):
         if not self.failed:
             self.failed = True
-            self.sh.violation(name, msg, self.case, engine='waiters', witness={'now': self.env.now})
+            mine = (name in C09_OWNED) if self.owner == 'C09' else (name not in C09_OWNED or name == 'crash')
+            if mine:
+                self.sh.violation(name, msg, self.case, engine='waiters', witness={'now': self.env.now})
+            else:
+                self.sh.count('foreign_discrepancy_' + name)
+
+    def checked_reserve(self, request):
+        """reserve_resources must succeed exactly when the request fits at this moment (C09)."""
+        fits = self.fits(request)
+        neg = any(a < 0 for a in request.values())
+        r = self.rm.reserve_resources(request)
+        self.sh.count('reservations_judged')
+        if not neg and (r is not None) != fits:
+            self.fail('reserve_vs_fit', f'reserve_resources({request}) at {self.env.now!r} returned '
+                      f'{"a reservation" if r is not None else None} although the request '
+                      f'{"fits" if fits else "does not fit"} (usage/capacity '
+                      f'{[(k, self.rm.get_resource_usage(k), self.rm.get_resource_capacity(k)) for k in request]})')
+        return r
+
+    def check_pools(self, where):
+        """usage == sum of the outstanding reservations; usage <= capacity unless capacity was reduced (C09)."""
+        for r in self.case['resources']:
+            u = self.rm.get_resource_usage(r)
+            held = sum(x.reserved_resources.get(r, 0) for x in self.held)
+            if u != held:
+                self.fail('pool_usage_ne_holdings', f'{where}: usage({r}) = {u!r} but outstanding reservations hold '
+                          f'{held!r}')
+                return
+            c = self.rm.get_resource_capacity(r)
+            if u > c and r not in self.reduced_below:
+                self.fail('over_capacity', f'{where}: usage({r}) = {u!r} exceeds capacity {c!r} that was never '
+                          f'reduced below usage')
+                return
+            if u <= c:
+                self.reduced_below.discard(r)
+        self.sh.count('pool_checks')
 
     def fits(self, request):
         for r, a in request.items():
@@ -97,7 +137,7 @@ class Run:
         if kind == 'register':
             self.register(dict(op[1]), op[2])
         elif kind == 'reserve':
-            r = self.rm.reserve_resources(dict(op[1]))
+            r = self.checked_reserve(dict(op[1]))
             if r is not None:
                 self.held.append(r)
         elif kind == 'release':
@@ -107,6 +147,8 @@ class Run:
         elif kind == 'add':
             try:
                 self.rm.add_resources(op[1], op[2])
+                if op[2] < 0 and self.rm.get_resource_capacity(op[1]) < self.rm.get_resource_usage(op[1]):
+                    self.reduced_below.add(op[1])
             except ValueError:
                 pass
 
@@ -161,8 +203,28 @@ class Run:
         sh.count('callbacks_judged')
         # behaviour of the callback itself
         b = w.behaviour
-        if b == 'reserve' or b == 'reserve_release_later':
-            r = self.rm.reserve_resources(dict(w.request))
+        if b in ('reserve_offered', 'other_then_reserve_offered'):
+            # the documented pattern: reserve the very dictionary the manager hands to the callback -
+            # possibly after another pool operation made from inside the callback
+            if b == 'other_then_reserve_offered':
+                first = next(iter(req), None)
+                if first is not None:
+                    if self.nreg % 2:
+                        x = self.checked_reserve({first: 1})
+                        if x is not None:
+                            self.held.append(x)
+                    else:
+                        try:
+                            self.rm.add_resources(first, -1)
+                            if self.rm.get_resource_capacity(first) < self.rm.get_resource_usage(first):
+                                self.reduced_below.add(first)
+                        except ValueError:
+                            pass
+            r = self.checked_reserve(req)
+            if r is not None:
+                self.held.append(r)
+        elif b == 'reserve' or b == 'reserve_release_later':
+            r = self.checked_reserve(dict(w.request))
             if r is None:
                 self.fail('called_when_infeasible', f'registration {w.reg}: reserve inside the callback failed')
                 return
@@ -185,6 +247,8 @@ class Run:
             self.sh.count('check_passes')
 
     def dispatched(self, ev):
+        if not self.failed:
+            self.check_pools(f'after event at {self.env.now!r}')
         if self.in_pass and action_name(ev.action) == '_check_pending_requests':
             self.in_pass = False
             if self.failed:
@@ -262,7 +326,8 @@ def gen_case(rng, tie):
 
         if x < 0.45:
             op = ['register', req(), rng.choice(['none', 'reserve', 'reserve', 'reserve_release_later',
-                                                 'release_other', 'register_again'])]
+                                                 'release_other', 'register_again', 'reserve_offered',
+                                                 'other_then_reserve_offered'])]
         elif x < 0.6:
             op = ['reserve', req()]
         elif x < 0.8:
@@ -288,8 +353,8 @@ def gen_case(rng, tie):
     return case
 
 
-def run_case(sh, case):
-    r = Run(sh, case)
+def run_case(sh, case, owner='C10'):
+    r = Run(sh, case, owner)
     f = r.execute()
     sh.case_done(case, f['multi_pass'] > 0 or f['infeasible_mid'] > 0)
 
